@@ -340,7 +340,7 @@ def run_case(case, reports=False, keep_objects=False):
                         counted(sc)
                         patch_scenario_with_autoretry(sc, max_attempts=2)
         recording = [True]
-        if case.get("prerun"):
+        if case.get("prerun") and case.get("prerun") != "same":
             # history: the same model objects are run once before (everything selected, nothing fails by hooks),
             # then reset with the public reset_model(); the recorded run must depend on the latest run only
             from behave.model import reset_model
@@ -359,6 +359,33 @@ def run_case(case, reports=False, keep_objects=False):
             reset_model(feats)
             recording[0] = True
         runner = ModelRunner(config, feats, step_registry=reg)
+        if case.get("prerun") == "same":
+            # history: THIS runner object (same configuration, same registry) has completed a run of the same model before;
+            # its bookkeeping of that run (undefined steps, hook failures, abort flag, formatters) must not leak into the
+            # verdict and statuses of the recorded run
+            from behave.model import reset_model
+            recording[0] = False
+            pre_events = len(events)
+            runner.hooks = {}
+            runner.formatters = make_formatters(config, config.outputs)
+            saved_cont0 = Scenario.continue_after_failed_step
+            Scenario.continue_after_failed_step = bool(cfg.get("cont", False))
+            try:
+                runner.run()
+            except BaseException:       # noqa
+                pass
+            finally:
+                Scenario.continue_after_failed_step = saved_cont0
+            del events[pre_events:]
+            attempts.clear()
+            reset_model(feats)
+            root.handlers = [] if cfg.get("logclear") else [mark]
+            root.setLevel(logging.WARNING)
+            del mark.records[:]
+            REAL_OUT.seek(0); REAL_OUT.truncate()
+            REAL_ERR.seek(0); REAL_ERR.truncate()
+            sys.stdout, sys.stderr = REAL_OUT, REAL_ERR
+            recording[0] = True
 
         def tag_owner(ctx):
             for nm in ("scenario", "rule", "feature"):
